@@ -20,7 +20,9 @@ type c11Block struct {
 	p  int
 }
 
-func (b c11Block) cidr() string { return fmt.Sprintf("%d.%d.%d.%d/%d", b.ip[0], b.ip[1], b.ip[2], b.ip[3], b.p) }
+func (b c11Block) cidr() string {
+	return fmt.Sprintf("%d.%d.%d.%d/%d", b.ip[0], b.ip[1], b.ip[2], b.ip[3], b.p)
+}
 func (b c11Block) u32() uint32 {
 	return uint32(b.ip[0])<<24 | uint32(b.ip[1])<<16 | uint32(b.ip[2])<<8 | uint32(b.ip[3])
 }
@@ -94,6 +96,165 @@ var c11OID = asn1.ObjectIdentifier{1, 3, 6, 1, 5, 5, 7, 1, 7}
 type c11Fam struct {
 	fam    []byte
 	blocks []asn1.BitString
+}
+
+// corrupted address extensions inside certificates signed by the role CA, probed through the
+// library functions and the credential branch of the real endpoints (shared by C10 and C11)
+func verifCorruptExtensionProbe(env *verifEnv, res *verifResult, keys *verifKeys, pid string) (malformedCases []string) {
+	rng := verifRand()
+	safeVerify := func(c *x509.Certificate, addr string) (ok bool, err error, panicked bool) {
+		defer func() {
+			if p := recover(); p != nil {
+				panicked = true
+			}
+		}()
+		ok, err = certgen.VerifyIPRestrictedX509CertIP(c, addr)
+		return
+	}
+	safeExtract := func(c *x509.Certificate) (n []net.IPNet, err error, panicked bool) {
+		defer func() {
+			if p := recover(); p != nil {
+				panicked = true
+			}
+		}()
+		n, err = certgen.ExtractIPNetsFromIPRestrictedX509(c)
+		return
+	}
+	// corrupted extensions in certificates signed by the role CA
+	bit := func(b []byte, n int) asn1.BitString { return asn1.BitString{Bytes: b, BitLength: n} }
+	v4 := []byte{0, 1, 1}
+	corrupt := [][]c11Fam{
+		{{v4, []asn1.BitString{bit([]byte{10, 0, 0, 0, 0}, 40)}}},
+		{{v4, []asn1.BitString{bit([]byte{10, 0, 0, 0, 0}, 33)}}},
+		{{v4, []asn1.BitString{bit([]byte{10, 0, 0, 0, 0, 0, 0, 0, 0, 0, 0, 0, 0, 0, 0, 0}, 128)}}},
+		{{v4, []asn1.BitString{bit([]byte{10, 0, 0, 0, 128}, 33)}}},
+		{{v4, []asn1.BitString{bit([]byte{}, 0)}}},
+		{{v4, []asn1.BitString{bit([]byte{10}, 8), bit([]byte{10, 0, 0, 0, 0}, 40)}}},
+		{{v4, []asn1.BitString{bit([]byte{10, 0, 0, 0, 0}, 40), bit([]byte{10}, 8)}}},
+		{{[]byte{0, 2, 1}, []asn1.BitString{bit([]byte{0x20, 0x01, 0x0d, 0xb8}, 32)}}},
+		{{[]byte{0, 2, 1}, []asn1.BitString{bit([]byte{10}, 8)}}, {v4, []asn1.BitString{bit([]byte{192, 168}, 16)}}},
+		{{[]byte{0, 2}, []asn1.BitString{bit([]byte{10}, 8)}}},
+		{{[]byte{}, []asn1.BitString{bit([]byte{10}, 8)}}},
+		{{[]byte{0, 1}, []asn1.BitString{bit([]byte{10}, 8)}}},
+		{{[]byte{0, 1, 1, 0}, []asn1.BitString{bit([]byte{10}, 8)}}},
+		{{v4, nil}},
+		{},
+		{{v4, []asn1.BitString{bit([]byte{10, 1}, 9)}}},
+		{{v4, []asn1.BitString{bit([]byte{10, 255}, 9)}}},
+		{{v4, []asn1.BitString{bit([]byte{10, 128}, 9)}}},
+		{{v4, []asn1.BitString{bit([]byte{255, 255, 255, 255}, 32)}}},
+		{{v4, []asn1.BitString{bit([]byte{0}, 1)}}},
+		{{v4, []asn1.BitString{bit([]byte{10, 0, 0}, 17)}}},
+		{{v4, []asn1.BitString{bit([]byte{10}, 8)}}, {v4, []asn1.BitString{bit([]byte{11, 0, 0, 0, 0}, 40)}}},
+	}
+	for i := 0; i < 40; i++ {
+		n := rng.Intn(7)
+		b := make([]byte, n)
+		rng.Read(b)
+		bl := rng.Intn(8*n + 9)
+		if rng.Intn(2) == 0 && n > 0 {
+			bl = 8*n - rng.Intn(8)
+		}
+		corrupt = append(corrupt, []c11Fam{{v4, []asn1.BitString{bit(b, bl)}}})
+	}
+	rawGarbage := [][]byte{{}, {0x30, 0x00}, {0x30, 0x80}, {0x04, 0x01, 0x00}, {0xff, 0xff, 0xff}, {0x30, 0x03, 0x03, 0x01, 0x09},
+		{0x30, 0x0b, 0x30, 0x09, 0x04, 0x03, 0x00, 0x01, 0x01, 0x30, 0x02, 0x03, 0x00},
+		{0x30, 0x0d, 0x30, 0x0b, 0x04, 0x03, 0x00, 0x01, 0x01, 0x30, 0x04, 0x03, 0x02, 0x08, 0x0a}}
+	probePeers := []c11Peer{c11PeerV4([4]byte{10, 0, 0, 1}), c11PeerV4([4]byte{11, 0, 0, 1}), c11PeerV4([4]byte{192, 168, 1, 1}), c11PeerV4([4]byte{0, 0, 0, 0}), c11PeerV4([4]byte{255, 255, 255, 255}), c11PeerMapped([4]byte{10, 9, 9, 9}), {kind: "v6", addr: "[2001:db8::1]:4711"}}
+	tryCert := func(value []byte, desc string, fams []c11Fam, modelOK bool) {
+		leaf, chain := verifClientChain(env.state.selfRoleCaCertDer, env.state.Signer, "svc-automation", time.Now().Add(-time.Minute), &keys.ec.PublicKey,
+			[]pkix.Extension{{Id: c11OID, Value: value}})
+		for _, p := range probePeers {
+			ok, err, pan := safeVerify(leaf, p.addr)
+			res.eval(fmt.Sprintf("corrupt|%s|%s|%v", desc, p.addr, ok), true)
+			res.bump("corrupt")
+			if pan {
+				res.hit(verifHit{Key: pid + ":panic:verify", Oracle: "panic", What: "VerifyIPRestrictedX509CertIP panicked on a corrupted extension", Case: map[string]interface{}{"ext": desc, "peer": p.addr}})
+			}
+			// independent oracle: accepted only if a literal, at most 32-bit, ipv4 block contains the peer
+			lit := false
+			for _, f := range fams {
+				if string(f.fam) != string(v4) {
+					continue
+				}
+				for _, b := range f.blocks {
+					if b.BitLength <= 32 && len(b.Bytes)*8 >= b.BitLength && (p.kind == "v4" || p.kind == "mapped") {
+						var ip [4]byte
+						copy(ip[:], b.Bytes[:(b.BitLength+7)/8])
+						if (c11Block{ip: ip, p: b.BitLength}).inside(p.a) {
+							lit = true
+						}
+					}
+				}
+			}
+			if ok && !lit {
+				res.hit(verifHit{Key: pid + ":accept-outside:corrupt", Oracle: "corrupted extension widens access",
+					What: fmt.Sprintf("extension %s accepts peer %s", desc, p.addr), Case: map[string]interface{}{"ext": desc, "peer": p.addr}})
+			}
+			if modelOK {
+				var fs []string
+				for _, f := range fams {
+					var bl []string
+					for _, b := range f.blocks {
+						bl = append(bl, fmt.Sprintf("(%s, %d)", coqPacked(b.Bytes), b.BitLength))
+					}
+					fs = append(fs, fmt.Sprintf("(%s, [%s])", coqPacked(f.fam), strings.Join(bl, "; ")))
+				}
+				malformedCases = append(malformedCases, fmt.Sprintf("([%s], %s, %s)", strings.Join(fs, "; "), p.coq(), coqBool(ok && err == nil)))
+			}
+		}
+		_, _, pan := safeExtract(leaf)
+		if pan {
+			res.hit(verifHit{Key: pid + ":panic:extract", Oracle: "panic", What: "ExtractIPNetsFromIPRestrictedX509 panicked on a corrupted extension", Case: desc})
+		}
+		// through the credential branch
+		for _, p := range probePeers[:3] {
+			req := verifNewRequest("POST", refreshRoleRequestingCertPath, roleCertForm("", nil, keys.derPubRU))
+			withTLS(req, chain, p.addr)
+			rr, pan := env.serve(req)
+			res.eval(fmt.Sprintf("corrupt-refresh|%s|%s|%d", desc, p.addr, rr.Code), true)
+			if pan {
+				res.hit(verifHit{Key: pid + ":panic:refresh", Oracle: "panic", What: "refresh handler panicked on a corrupted extension", Case: map[string]interface{}{"ext": desc, "peer": p.addr}})
+			}
+			_ = rr
+		}
+	}
+	for ci, fams := range corrupt {
+		var list []certgen.IpAdressFamily
+		wellFormedASN1 := true
+		for _, f := range fams {
+			list = append(list, certgen.IpAdressFamily{AddressFamily: f.fam, Addresses: f.blocks})
+			for _, b := range f.blocks {
+				pad := 8*len(b.Bytes) - b.BitLength
+				if pad < 0 || pad > 7 || (len(b.Bytes) == 0 && pad != 0) {
+					wellFormedASN1 = false
+				} else if len(b.Bytes) > 0 && b.Bytes[len(b.Bytes)-1]&byte((1<<uint(pad))-1) != 0 {
+					wellFormedASN1 = false
+				}
+			}
+		}
+		value, err := asn1.Marshal(list)
+		if err != nil {
+			continue
+		}
+		// what is really inside the certificate is what asn1.Unmarshal reads back (Marshal
+		// recomputes the padding from the bit length); a value Unmarshal refuses never reaches
+		// keymaster's decoder: no model case, nothing literal
+		var back []certgen.IpAdressFamily
+		_, uerr := asn1.Unmarshal(value, &back)
+		var actual []c11Fam
+		if uerr == nil {
+			for _, f := range back {
+				actual = append(actual, c11Fam{fam: f.AddressFamily, blocks: f.Addresses})
+			}
+		}
+		_ = wellFormedASN1
+		tryCert(value, fmt.Sprintf("corrupt#%d", ci), actual, uerr == nil)
+	}
+	for gi, g := range rawGarbage {
+		tryCert(g, fmt.Sprintf("garbage#%d", gi), nil, false)
+	}
+	return malformedCases
 }
 
 func TestVerif_C11(t *testing.T) {
@@ -315,140 +476,7 @@ func TestVerif_C11(t *testing.T) {
 			}
 		}
 	}
-	// corrupted extensions in certificates signed by the role CA
-	bit := func(b []byte, n int) asn1.BitString { return asn1.BitString{Bytes: b, BitLength: n} }
-	v4 := []byte{0, 1, 1}
-	corrupt := [][]c11Fam{
-		{{v4, []asn1.BitString{bit([]byte{10, 0, 0, 0, 0}, 40)}}},
-		{{v4, []asn1.BitString{bit([]byte{10, 0, 0, 0, 0}, 33)}}},
-		{{v4, []asn1.BitString{bit([]byte{10, 0, 0, 0, 0, 0, 0, 0, 0, 0, 0, 0, 0, 0, 0, 0}, 128)}}},
-		{{v4, []asn1.BitString{bit([]byte{10, 0, 0, 0, 128}, 33)}}},
-		{{v4, []asn1.BitString{bit([]byte{}, 0)}}},
-		{{v4, []asn1.BitString{bit([]byte{10}, 8), bit([]byte{10, 0, 0, 0, 0}, 40)}}},
-		{{v4, []asn1.BitString{bit([]byte{10, 0, 0, 0, 0}, 40), bit([]byte{10}, 8)}}},
-		{{[]byte{0, 2, 1}, []asn1.BitString{bit([]byte{0x20, 0x01, 0x0d, 0xb8}, 32)}}},
-		{{[]byte{0, 2, 1}, []asn1.BitString{bit([]byte{10}, 8)}}, {v4, []asn1.BitString{bit([]byte{192, 168}, 16)}}},
-		{{[]byte{0, 2}, []asn1.BitString{bit([]byte{10}, 8)}}},
-		{{[]byte{}, []asn1.BitString{bit([]byte{10}, 8)}}},
-		{{[]byte{0, 1}, []asn1.BitString{bit([]byte{10}, 8)}}},
-		{{[]byte{0, 1, 1, 0}, []asn1.BitString{bit([]byte{10}, 8)}}},
-		{{v4, nil}},
-		{},
-		{{v4, []asn1.BitString{bit([]byte{10, 1}, 9)}}},
-		{{v4, []asn1.BitString{bit([]byte{10, 255}, 9)}}},
-		{{v4, []asn1.BitString{bit([]byte{10, 128}, 9)}}},
-		{{v4, []asn1.BitString{bit([]byte{255, 255, 255, 255}, 32)}}},
-		{{v4, []asn1.BitString{bit([]byte{0}, 1)}}},
-		{{v4, []asn1.BitString{bit([]byte{10, 0, 0}, 17)}}},
-		{{v4, []asn1.BitString{bit([]byte{10}, 8)}}, {v4, []asn1.BitString{bit([]byte{11, 0, 0, 0, 0}, 40)}}},
-	}
-	for i := 0; i < 40; i++ {
-		n := rng.Intn(7)
-		b := make([]byte, n)
-		rng.Read(b)
-		bl := rng.Intn(8*n + 9)
-		if rng.Intn(2) == 0 && n > 0 {
-			bl = 8*n - rng.Intn(8)
-		}
-		corrupt = append(corrupt, []c11Fam{{v4, []asn1.BitString{bit(b, bl)}}})
-	}
-	rawGarbage := [][]byte{{}, {0x30, 0x00}, {0x30, 0x80}, {0x04, 0x01, 0x00}, {0xff, 0xff, 0xff}, {0x30, 0x03, 0x03, 0x01, 0x09},
-		{0x30, 0x0b, 0x30, 0x09, 0x04, 0x03, 0x00, 0x01, 0x01, 0x30, 0x02, 0x03, 0x00},
-		{0x30, 0x0d, 0x30, 0x0b, 0x04, 0x03, 0x00, 0x01, 0x01, 0x30, 0x04, 0x03, 0x02, 0x08, 0x0a}}
-	probePeers := []c11Peer{c11PeerV4([4]byte{10, 0, 0, 1}), c11PeerV4([4]byte{11, 0, 0, 1}), c11PeerV4([4]byte{192, 168, 1, 1}), c11PeerV4([4]byte{0, 0, 0, 0}), c11PeerV4([4]byte{255, 255, 255, 255}), c11PeerMapped([4]byte{10, 9, 9, 9}), {kind: "v6", addr: "[2001:db8::1]:4711"}}
-	tryCert := func(value []byte, desc string, fams []c11Fam, modelOK bool) {
-		leaf, chain := verifClientChain(env.state.selfRoleCaCertDer, env.state.Signer, "svc-automation", time.Now().Add(-time.Minute), &keys.ec.PublicKey,
-			[]pkix.Extension{{Id: c11OID, Value: value}})
-		for _, p := range probePeers {
-			ok, err, pan := safeVerify(leaf, p.addr)
-			res.eval(fmt.Sprintf("corrupt|%s|%s|%v", desc, p.addr, ok), true)
-			res.bump("corrupt")
-			if pan {
-				res.hit(verifHit{Key: "C11:panic:verify", Oracle: "panic", What: "VerifyIPRestrictedX509CertIP panicked on a corrupted extension", Case: map[string]interface{}{"ext": desc, "peer": p.addr}})
-			}
-			// independent oracle: accepted only if a literal, at most 32-bit, ipv4 block contains the peer
-			lit := false
-			for _, f := range fams {
-				if string(f.fam) != string(v4) {
-					continue
-				}
-				for _, b := range f.blocks {
-					if b.BitLength <= 32 && len(b.Bytes)*8 >= b.BitLength && (p.kind == "v4" || p.kind == "mapped") {
-						var ip [4]byte
-						copy(ip[:], b.Bytes[:(b.BitLength+7)/8])
-						if (c11Block{ip: ip, p: b.BitLength}).inside(p.a) {
-							lit = true
-						}
-					}
-				}
-			}
-			if ok && !lit {
-				res.hit(verifHit{Key: "C11:accept-outside:corrupt", Oracle: "corrupted extension widens access",
-					What: fmt.Sprintf("extension %s accepts peer %s", desc, p.addr), Case: map[string]interface{}{"ext": desc, "peer": p.addr}})
-			}
-			if modelOK {
-				var fs []string
-				for _, f := range fams {
-					var bl []string
-					for _, b := range f.blocks {
-						bl = append(bl, fmt.Sprintf("(%s, %d)", coqPacked(b.Bytes), b.BitLength))
-					}
-					fs = append(fs, fmt.Sprintf("(%s, [%s])", coqPacked(f.fam), strings.Join(bl, "; ")))
-				}
-				malformedCases = append(malformedCases, fmt.Sprintf("([%s], %s, %s)", strings.Join(fs, "; "), p.coq(), coqBool(ok && err == nil)))
-			}
-		}
-		_, _, pan := safeExtract(leaf)
-		if pan {
-			res.hit(verifHit{Key: "C11:panic:extract", Oracle: "panic", What: "ExtractIPNetsFromIPRestrictedX509 panicked on a corrupted extension", Case: desc})
-		}
-		// through the credential branch
-		for _, p := range probePeers[:3] {
-			req := verifNewRequest("POST", refreshRoleRequestingCertPath, roleCertForm("", nil, keys.derPubRU))
-			withTLS(req, chain, p.addr)
-			rr, pan := env.serve(req)
-			res.eval(fmt.Sprintf("corrupt-refresh|%s|%s|%d", desc, p.addr, rr.Code), true)
-			if pan {
-				res.hit(verifHit{Key: "C11:panic:refresh", Oracle: "panic", What: "refresh handler panicked on a corrupted extension", Case: map[string]interface{}{"ext": desc, "peer": p.addr}})
-			}
-			_ = rr
-		}
-	}
-	for ci, fams := range corrupt {
-		var list []certgen.IpAdressFamily
-		wellFormedASN1 := true
-		for _, f := range fams {
-			list = append(list, certgen.IpAdressFamily{AddressFamily: f.fam, Addresses: f.blocks})
-			for _, b := range f.blocks {
-				pad := 8*len(b.Bytes) - b.BitLength
-				if pad < 0 || pad > 7 || (len(b.Bytes) == 0 && pad != 0) {
-					wellFormedASN1 = false
-				} else if len(b.Bytes) > 0 && b.Bytes[len(b.Bytes)-1]&byte((1<<uint(pad))-1) != 0 {
-					wellFormedASN1 = false
-				}
-			}
-		}
-		value, err := asn1.Marshal(list)
-		if err != nil {
-			continue
-		}
-		// what is really inside the certificate is what asn1.Unmarshal reads back (Marshal
-		// recomputes the padding from the bit length); a value Unmarshal refuses never reaches
-		// keymaster's decoder: no model case, nothing literal
-		var back []certgen.IpAdressFamily
-		_, uerr := asn1.Unmarshal(value, &back)
-		var actual []c11Fam
-		if uerr == nil {
-			for _, f := range back {
-				actual = append(actual, c11Fam{fam: f.AddressFamily, blocks: f.Addresses})
-			}
-		}
-		_ = wellFormedASN1
-		tryCert(value, fmt.Sprintf("corrupt#%d", ci), actual, uerr == nil)
-	}
-	for gi, g := range rawGarbage {
-		tryCert(g, fmt.Sprintf("garbage#%d", gi), nil, false)
-	}
+	malformedCases = verifCorruptExtensionProbe(env, res, keys, "C11")
 	// Coq
 	var sb strings.Builder
 	sb.WriteString(coqCaseHeader)
